@@ -53,6 +53,42 @@ def _prop_job(shape):
     return [("propagate_toplevel", repr(shape), r.kind, str(r.detail), r.result) for r in res]
 
 
+def _dist_job(shape):
+    def call(w, it, f):
+        wk = w.new_walker("pysmt.rewritings.TimesDistributor", w.env)
+        return it.call(it.getattr(wk, "walk"), [f])
+    res = proc.run_proc(shape, call)
+    return [("times_distributor", repr(shape), r.kind, str(r.detail), r.result) for r in res]
+
+
+def dist_shapes():
+    """Arithmetic terms (inside atoms) for TimesDistributor: sums, differences and n-ary products in every nesting,
+    constant factors -1 / 1 / 0 at every position, over Int and over Real."""
+    from fractions import Fraction as F
+    out = []
+    for so, mk in ((INT, lambda v: ("lit", v, INT)), (proc.REAL, lambda v: ("lit", F(v), proc.REAL))):
+        x, y, z, w_ = S("x", so), S("y", so), S("z", so), S("w", so)
+        m1, one, two, three, zero = mk(-1), mk(1), mk(2), mk(3), mk(0)
+        terms = [
+            ("Times", ("Plus", x, one), three), ("Times", ("Plus", x, y), ("Minus", z, one)), ("Times", x, y),
+            ("Times", ("Plus", x, one), ("Minus", y, one), z, ("Plus", w_, ("Minus", three, z))),
+            ("Minus", x, ("Minus", y, z)), ("Minus", x, ("Times", m1, y)), ("Minus", x, ("Times", m1, y, z)),
+            ("Minus", x, ("Plus", w_, ("Times", m1, y, z))), ("Minus", ("Plus", x, y), ("Times", m1, three, z, w_)),
+            ("Minus", w_, ("Times", m1, ("Plus", x, y), z)), ("Minus", x, ("Times", y, m1, z)), ("Minus", x, ("Times", m1, m1)),
+            ("Minus", x, ("Times", m1, ("Times", m1, y))), ("Minus", ("Minus", x, y), ("Minus", z, w_)),
+            ("Times", m1, ("Minus", x, ("Times", two, y))), ("Times", ("Minus", x, y), ("Minus", x, y)),
+            ("Plus", ("Plus", x, y), ("Times", two, ("Plus", z, ("Plus", x, one)))), ("Times", two, ("Times", ("Plus", x, y), z)),
+            ("Times", zero, ("Plus", x, y)), ("Minus", zero, ("Times", m1, x, y)), ("Minus", ("Times", m1, x, y), ("Times", m1, y, z)),
+            ("Times", ("Plus", x, ("Times", m1, y, z)), m1), ("Minus", x, ("Minus", y, ("Times", m1, z, w_))),
+            ("Plus", x, ("Ite", ("LT", x, y), ("Times", two, ("Plus", x, y)), ("Minus", y, ("Times", m1, x, z)))),
+        ]
+        for t in terms:
+            out.append(("LT", t, zero))
+            out.append(("Equals", t, w_))
+        out.append(("And", ("LT", ("Minus", w_, ("Times", m1, ("Plus", x, one), z)), zero), ("LT", x, y)))
+    return [Shape(t) for t in out]
+
+
 def prop_shapes():
     x, y, z = S("x", INT), S("y", INT), S("z", INT)
     a = S("a")
@@ -95,16 +131,17 @@ def run(ctx):
         pj += [("conjunctive_partition", Shape(t)), ("disjunctive_partition", Shape(t))]
     outs += parallel_map(_partition_job, pj)
     outs += parallel_map(_prop_job, prop_shapes())
+    outs += parallel_map(_dist_job, dist_shapes())
     where = {"nnf": "pysmt.rewritings.NNFizer", "aig": "pysmt.rewritings.AIGer", "prenex": "pysmt.rewritings.PrenexNormalizer",
              "shannon": PROCS["shannon"][0], "selfsub": PROCS["selfsub"][0],
              "conjunctive_partition": "pysmt.rewritings", "disjunctive_partition": "pysmt.rewritings",
-             "propagate_toplevel": "pysmt.rewritings"}
+             "propagate_toplevel": "pysmt.rewritings", "times_distributor": "pysmt.rewritings"}
     counts = {}
     for res in outs:
         for name, shape, kind, detail, result in res:
             counts[(name, kind)] = counts.get((name, kind), 0) + 1
             key = "%s|%s" % (name, shape)
-            loc = "pysmt/rewritings.py" if name in ("nnf", "aig", "prenex", "conjunctive_partition", "disjunctive_partition", "propagate_toplevel") \
+            loc = "pysmt/rewritings.py" if name in ("nnf", "aig", "prenex", "conjunctive_partition", "disjunctive_partition", "propagate_toplevel", "times_distributor") \
                 else "pysmt/solvers/qelim.py"
             if kind == "valid":
                 rs.ok({"procedure": name, "shape": shape, "result": result, "checked": detail})
